@@ -63,6 +63,15 @@ Proof.
     + apply andb_prop in Hen. destruct Hen as [H1 H2]. exists KParam, false, (QParam i). repeat split; auto.
       intros _ V. rewrite V in H2. discriminate.
     + split; [reflexivity|]. destruct (param_val en i); try discriminate; reflexivity.
+  - (* subquery value *)
+    inversion Ht; subst. cbn [den tr reval]. apply andb_prop in Hen. destruct Hen as [H1 H2].
+    exists KExpr, nullable, (QCol i). repeat split; auto.
+    intros N V. rewrite N, V in H2. discriminate.
+  - (* subquery condition *)
+    inversion Ht; subst. cbn [den tr reval C01Monad.cden getsql]. unfold C01Monad.ev. cbn [qeval encenv col_val].
+    destruct (attr_val en i) as [| | |b]; try discriminate Hen.
+    + exists U. split; [reflexivity|]. apply (dec_tv_of_tv d U).
+    + exists (tv_of_bool b). split; [destruct b; reflexivity|]. cbn [enc]. rewrite bv_of_tv. apply dec_tv_of_tv.
   - (* arith *)
     apply andb_prop in Hen. destruct Hen as [E1 E2].
     apply andb_prop in Hs. destruct Hs as [Hs S3]. apply andb_prop in Hs. destruct Hs as [S1 S2].
@@ -142,16 +151,15 @@ Proof.
     destruct (ty_of e1) as [tc|] eqn:T1; try discriminate.
     destruct (ty_of e2) as [[x| |]|] eqn:T2; try (destruct tc as [[]| |]; discriminate).
     destruct (ty_of e3) as [[y| |]|] eqn:T3; try (destruct tc as [[]| |]; discriminate).
-    assert (E : vty_eqb x y = true /\ T0 = TV x /\ (tc = TCond \/ tc = TV TStr \/ tc = TV TBool)).
-    { destruct tc as [[]| |]; try discriminate; destruct (vty_eqb x y); try discriminate; inversion Ht; auto. }
+    assert (E : vty_eqb x y = true /\ T0 = TV x /\ (tc = TCond \/ exists u, tc = TV u)).
+    { destruct tc as [u| |]; try discriminate; destruct (vty_eqb x y); try discriminate; inversion Ht; eauto. }
     destruct E as [E [-> TC]]. apply vty_eqb_eq in E. subst y.
     specialize (IHe1 _ eq_refl E1 S1). specialize (IHe2 _ eq_refl E2 S2). specialize (IHe3 _ eq_refl E3 S3).
     cbn [den tr reval]. rewrite T1.
     apply (if_den d Hd en); try assumption.
-    destruct TC as [->|[->| ->]]; cbn [den] in IHe1.
+    destruct TC as [->|[u ->]]; cbn [den] in IHe1.
     + destruct IHe1 as [c [Ec C]]. left. rewrite Ec. cbn [truth3]. rewrite tv_py_roundtrip. exact C.
-    + right. exists TStr, (rv e1). rewrite truth_u_truth3. auto.
-    + right. exists TBool, (rv e1). rewrite truth_u_truth3. auto.
+    + right. exists u, (rv e1). rewrite truth_u_truth3. auto.
   - (* coalesce *)
     assert (exists u, T0 = TV u) as [u ->].
     { destruct args as [|a [|b r]]; cbn [map] in Ht; try discriminate; [destruct (ty_of a) as [[u0| |]|]; discriminate|].
